@@ -1,0 +1,9 @@
+//go:build verif
+
+package bitio
+
+// Verification hook (property C05, codec front ends). Compiled only with the
+// build tag "verif"; it adds no behaviour of its own.
+
+// VerifBuf returns the byte slice the BoolReader was created over.
+func (br *BoolReader) VerifBuf() []byte { return br.buf }
